@@ -293,20 +293,27 @@ class _Sym:
 
 class _Entry:
     """An abstract wrapper_map entry."""
-    def __init__(self, tag):
+    def __init__(self, tag, owner_name=None):
         self.tag = tag
+        self.owner_name = owner_name or f"owner({tag})"
 
     def get(self, i):
         if i == 1:
-            return _Owner(self.tag)
+            return _Owner(self.tag, self.owner_name)
         if i == 3:
             return _Sym(f"name({self.tag})")
         return _Sym(f"{self.tag}[{i}]")
 
 
 class _Owner:
-    def __init__(self, tag):
+    def __init__(self, tag, name=None):
         self.tag = tag
+        self.name = name or f"owner({tag})"
+
+
+class _Poison:
+    def __init__(self, why):
+        self.why = why
 
 
 class _Continue(Exception):
@@ -323,26 +330,42 @@ class LoopExec:
         self.env: Dict[str, object] = {}
 
     def run(self):
-        # initialise locals assigned before the loop with constants
+        # locals assigned before the loop: evaluate what can be evaluated, poison the rest
         for st in self.fn.body:
             if st is self.loop:
                 break
-            if isinstance(st, ast.Assign) and len(st.targets) == 1 and isinstance(st.targets[0], ast.Name) \
-                    and isinstance(st.value, ast.Constant):
-                self.env[st.targets[0].id] = st.value.value
-        it = unparse(self.loop.iter).replace(" ", "")
-        if it == "range(self.wrapper_id)":
-            rng = range(self.n)
-        else:
-            rng = self._range(self.loop.iter)
-        var = self.loop.target.id
-        for i in rng:
-            self.env[var] = i
+            if isinstance(st, ast.Assign) and len(st.targets) == 1 and isinstance(st.targets[0], ast.Name):
+                try:
+                    self.env[st.targets[0].id] = self.ev(st.value)
+                except AnalysisError as e:
+                    self.env[st.targets[0].id] = _Poison(str(e))
+        seq = self._iterable(self.loop.iter)
+        for item in seq:
+            self._bind(self.loop.target, item)
             try:
                 self.block(self.loop.body)
             except _Continue:
                 continue
         return self.events
+
+    def _bind(self, target, value):
+        if isinstance(target, ast.Name):
+            self.env[target.id] = value
+        elif isinstance(target, ast.Tuple) and isinstance(value, tuple) and len(target.elts) == len(value):
+            for t, v in zip(target.elts, value):
+                self._bind(t, v)
+        else:
+            raise AnalysisError("replay loop: loop target not modelled")
+
+    def _iterable(self, e):
+        it = unparse(e).replace(" ", "")
+        if it == "range(self.wrapper_id)":
+            return list(range(self.n))
+        if it in ("sorted(self.wrapper_map.items())", "self.wrapper_map.items()"):
+            return sorted(self.wmap.items())
+        if it in ("sorted(self.wrapper_map)", "sorted(self.wrapper_map.keys())", "self.wrapper_map"):
+            return sorted(self.wmap)
+        return list(self._range(e))
 
     def _range(self, e):
         if isinstance(e, ast.Call) and unparse(e.func) == "range":
@@ -379,8 +402,23 @@ class LoopExec:
             return e.value
         if isinstance(e, ast.Name):
             if e.id in self.env:
-                return self.env[e.id]
+                v = self.env[e.id]
+                if isinstance(v, _Poison):
+                    raise AnalysisError(f"replay loop: {e.id} is not modelled ({v.why})")
+                return v
             raise AnalysisError(f"replay loop: free name {e.id}")
+        if isinstance(e, ast.DictComp) and len(e.generators) == 1:
+            g = e.generators[0]
+            out = {}
+            saved = dict(self.env)
+            for item in self._iterable(g.iter):
+                self._bind(g.target, item)
+                if all(self.ev(c) for c in g.ifs):
+                    out[self.ev(e.key)] = self.ev(e.value)
+            self.env = saved
+            return out
+        if isinstance(e, ast.Dict) and not e.keys:
+            return {}
         if isinstance(e, ast.Attribute):
             if unparse(e) == "self.wrapper_id":
                 return self.n
@@ -388,7 +426,7 @@ class LoopExec:
                 return _Sym("module")
             b = self.ev(e.value)
             if isinstance(b, _Owner) and e.attr == "name":
-                return _Sym(f"owner({b.tag})")
+                return _Sym(b.name)
             return _Sym(f"{b}.{e.attr}")
         if isinstance(e, ast.BinOp) and isinstance(e.op, (ast.Add, ast.Sub)):
             l, r = self.ev(e.left), self.ev(e.right)
@@ -396,8 +434,9 @@ class LoopExec:
                 return l + r if isinstance(e.op, ast.Add) else l - r
             return _Sym(f"({l}{'+' if isinstance(e.op, ast.Add) else '-'}{r})")
         if isinstance(e, ast.Compare) and len(e.ops) == 1:
-            l, r = self.ev(e.left), self.ev(e.comparators[0])
             op = e.ops[0]
+            l = self.ev(e.left)
+            r = self.wmap if unparse(e.comparators[0]) == "self.wrapper_map" else self.ev(e.comparators[0])
             if isinstance(op, ast.Is):
                 return l is r
             if isinstance(op, ast.IsNot):
@@ -406,6 +445,9 @@ class LoopExec:
                 return l == r
             if isinstance(op, ast.NotEq):
                 return l != r
+            if isinstance(op, (ast.In, ast.NotIn)):
+                if isinstance(r, (dict, list, tuple, set)):
+                    return (l in r) if isinstance(op, ast.In) else (l not in r)
             raise AnalysisError("replay loop: comparison not modelled")
         if isinstance(e, ast.UnaryOp) and isinstance(e.op, ast.Not):
             return not self.ev(e.operand)
@@ -415,16 +457,25 @@ class LoopExec:
         if isinstance(e, ast.IfExp):
             return self.ev(e.body) if self.ev(e.test) else self.ev(e.orelse)
         if isinstance(e, ast.Subscript):
-            b = self.ev(e.value)
             i = self.ev(e.slice)
+            if unparse(e.value) == "self.wrapper_map":
+                if i in self.wmap:
+                    return self.wmap[i]
+                raise AnalysisError(f"replay loop: wrapper_map[{i}] read but id {i} has no entry")
+            b = self.ev(e.value)
             if isinstance(b, _Entry) and isinstance(i, int):
                 return b.get(i)
+            if isinstance(b, dict):
+                return b[i]
             raise AnalysisError(f"replay loop: subscript {unparse(e)} not modelled")
         if isinstance(e, ast.Call):
             f = unparse(e.func)
             if f == "self.wrapper_map.get":
                 k = self.ev(e.args[0])
                 return self.wmap.get(k) if isinstance(k, int) else None
+            if isinstance(e.func, ast.Attribute) and e.func.attr == "get" and isinstance(e.func.value, ast.Name) \
+                    and isinstance(self.env.get(e.func.value.id), dict):
+                return self.env[e.func.value.id].get(self.ev(e.args[0]))
             if f == "self.generate_collector_function":
                 k = self.ev(e.args[0])
                 ent = self.wmap.get(k) if isinstance(k, int) else None
@@ -480,6 +531,8 @@ def rule_replay_loops(ctx, rep: Report, rid="I5"):
         "ordinary id, virtual pair at 1,2": (3, {0: _Entry("E0"), 2: _Entry("V")}),
         "two virtual pairs back to back": (4, {1: _Entry("V1"), 3: _Entry("V2")}),
         "virtual pair last": (2, {1: _Entry("V")}),
+        "two virtual classes with the same unqualified name (different namespaces)":
+            (5, {1: _Entry("V1", "Model"), 2: _Entry("E"), 4: _Entry("V2", "Model")}),
     }
     for label, (n, wmap) in shapes.items():
         holes = [i for i in range(n) if i not in wmap]
@@ -507,7 +560,7 @@ def rule_replay_loops(ctx, rep: Report, rid="I5"):
             elif i in holes:
                 want[i] = wmap[i + 1].get(3)                 # the .m collector call uses the lower id
             else:
-                want[i] = ("upcast", _Sym(f"owner({wmap[i].tag})"), i)   # the .m up-cast call uses the higher id
+                want[i] = ("upcast", _Sym(wmap[i].owner_name), i)   # the .m up-cast call uses the higher id
         got = {i: cases.get(i) for i in range(n)}
         rep.add(rid, f"{label}:each case calls the routine of the same map entry / the up-cast of the pair", got == want,
                 f"dispatch {got}, expected {want}", loc)
